@@ -4,6 +4,7 @@ import (
 	"errors"
 	"fmt"
 	"math"
+	"strings"
 	"testing"
 
 	"github.com/go-spatial/geom"
@@ -16,11 +17,11 @@ import (
 )
 
 var specC09 = report.Spec{Property: "C09", Check: "C09",
-	Rule: "a valid or arbitrary polygon inside the grid with 1-3 vertices moved to a generated position relative to the extent: outside on one of the sides left/bottom/right/top or a corner at a distance from {1e-10 units, 2..10 fixed point units, a fraction of a pixel, exactly on the exclusive right/top border, exactly 1 pixel, up to 10 pixels, several grid widths, or an ordinate beyond the fixed point range (1e9 .. 1e30, infinite)}, " +
+	Rule: "a valid or arbitrary polygon inside the grid with 1-3 vertices moved to a generated position relative to the extent: outside on one of the sides left/bottom/right/top or a corner at a distance from {1e-10 units, 2..10 fixed point units, a fraction of a pixel, exactly on the exclusive right/top border, exactly 1 pixel, up to 10 pixels, several grid widths (half of these, where the numbers allow: exactly k*2^32 pixels, k = 1..3, right of or above another vertex that is first moved to a pixel with the bits of k at position 16 of its address - the pair collides if the oversized address is folded into a Z-order key before it is checked), or an ordinate beyond the fixed point range (1e9 .. 1e30, infinite)}, " +
 		"or (companion class) inside within one pixel of a border incl. exactly on the inclusive left/bottom border; grids: synthetic with zero and non-zero (also negative) origin, NetherlandsRDNewQuad, WebMercatorQuad, and a set derived from NetherlandsRDNewQuad by halving/quartering the cell sizes on Go struct copies (shares pointers with the built-in set, used in the same process); both values of IgnoreOutsideGrid. " +
 		"Oracle: 'outside' is decided by the harness on the fixed point reading against [min, min+span) (exact). Outside => with ignore off the call panics with an error that errors.As a pointindex.OutsideGridError, with ignore on it returns an empty map; never geometry. " +
 		"All inside and the grid round => no OutsideGridError. PointIndex.InsertPoint is probed with every vertex: error <=> outside on round grids, error <= outside otherwise. " +
-		"Non-trivial: an outside vertex closer than one pixel to the extent or exactly on the exclusive border. Distinct by case content.",
+		"Non-trivial: an outside vertex closer than one pixel to the extent or exactly on the exclusive border, or an alias pair. Distinct by case content.",
 	Assumptions: []string{"the extent is the harness' reading of tms20.MatrixBoundingBox(0)"}}
 
 type C09Case struct {
@@ -134,6 +135,43 @@ func genC09(t *rapid.T) C09Case {
 				y = ex
 			}
 		}
+		if dcls == "far" && !inside && len(slots) >= 2 && rapid.Bool().Draw(t, "alias") {
+			// exactly k * 2^32 pixels right of / above another vertex of the polygon whose pixel address has the bits of k at
+			// position 16: the two collide if the oversized address is folded or truncated into a Z-order key before it is checked
+			k := int64(rapid.IntRange(1, 3).Draw(t, "aliasK"))
+			if deepest >= 18 && px < (int64(1)<<28)/k {
+				ti := rapid.IntRange(0, len(slots)-1).Draw(t, "twin")
+				if slots[ti] == sl {
+					ti = (ti + 1) % len(slots)
+				}
+				tw := slots[ti]
+				tp := P{X: kernel.ToFixed(c.Poly[tw[0]][tw[1]][0]), Y: kernel.ToFixed(c.Poly[tw[0]][tw[1]][1])}
+				if g.InsideExtent(tp) {
+					pix := g.Pixel(tp, deepest, deepest)
+					ax := rapid.IntRange(0, 2).Draw(t, "aliasAxis") // x, y, both
+					if ax != 1 {
+						pix.X |= k << 16
+					}
+					if ax != 0 {
+						pix.Y |= k << 16
+					}
+					ctr := g.Centre(pix, deepest, deepest)
+					tx, _ := gen.ExactFloat(ctr.X)
+					ty, _ := gen.ExactFloat(ctr.Y)
+					c.Poly[tw[0]][tw[1]] = [2]float64{tx, ty}
+					far := ctr
+					if ax != 1 {
+						far.X += (k << 32) * px
+					}
+					if ax != 0 {
+						far.Y += (k << 32) * px
+					}
+					x, _ = gen.ExactFloat(far.X)
+					y, _ = gen.ExactFloat(far.Y)
+					dcls = "alias"
+				}
+			}
+		}
 		c.Poly[sl[0]][sl[1]] = [2]float64{x, y}
 		c.Moved = append(c.Moved, fmt.Sprintf("%s/%s/inside=%v", side, dcls, inside))
 	}
@@ -192,6 +230,12 @@ func oracleC09(c C09Case) (o report.Outcome) {
 	if near {
 		o.NonTrivial = true
 		o.Label("outside within one pixel / on the exclusive border")
+	}
+	for _, m := range c.Moved {
+		if strings.Contains(m, "/alias/") {
+			o.NonTrivial = true
+			o.Label("outside vertex k*2^32 pixels from another vertex (key alias)")
+		}
 	}
 	res := snapSafe(c.SnapCase)
 	isOutsideErr := false
